@@ -48,7 +48,7 @@ Conforms == n >= 3 =>
   /\ \A d \in 0..2 :
        LET y == Blk(DOff(d))  y2 == Blk(DOff(d) + n)  yp == Blk(DOff(d) + 2 * n)  ya == Blk(DOff(d) + 3 * n)
            diff == [j \in 1..n |-> FSub(xs[j], y[j])]
-       IN /\ Chk(n <= d + 1 \/ \A j \in 1..(n - d - 1) : Close(Diff(diff, d + 1)[j], Zero, FMul(Tol, Sc)), code, "DetrendIsPoly")
+       IN /\ Chk(n <= d + 1 \/ (LET dd == Diff(diff, d + 1) IN \A j \in 1..(n - d - 1) : Close(dd[j], Zero, FMul(Tol, Sc))), code, "DetrendIsPoly")
           /\ Chk(\A p \in 0..d : Close(Moment(y, p), Zero, FMul(FMul(Tol, Sc), FInt(n))), code, "DetrendOrthogonal")
           /\ Chk(SeqNear(y2, y), code, "DetrendIdempotent")
           /\ Chk(SeqNear(yp, y), code, "DetrendPolyInvariant")
